@@ -45,6 +45,62 @@ def emit_polygons(ctx, G, maxv, relabel=True, simulate=None, depth=None, balls=F
     return list(seen.values())
 
 
+def _named_cfg(cfg, seeds, G, relabel, emit, balls=False, radial=False, ff=False):
+    b = lambda x: "TRUE" if x else "FALSE"
+    return (cfg + f"CONSTANTS\n G = {G}\n MaxV = 0\n Relabel = {b(relabel)}\n EmitOn = {b(emit)}\n WithBalls = {b(balls)}\n"
+            f" WithRadial = {b(radial)}\n WithFF = {b(ff)}\n Seeds <- {seeds}\n")
+
+
+def t1_named(ctx, seeds="Named", G=8):
+    """The named many-cornered polygons of spec/MC_Polygon2.tla (combs, saw, spiral, ...) with all 2n relabellings."""
+    res = tlc.run("MC_Polygon2", _named_cfg(CFG_T1, seeds, G, True, False), timeout=1500)
+    ctx.tlc(res, f"MC_Polygon2 T1 (layer A = layer D) seeds={seeds}, every relabelling")
+    if res.violated:
+        ctx.violation({"cls": "spec", "obs": res.violated, "tags": ["T1"],
+                       "msg": f"design-level counter-example: invariant {res.violated} fails on a named polygon"},
+                      {"tlc_tail": res.stdout[-3000:]})
+    return res
+
+
+CFG_TRI = """SPECIFICATION Spec
+INVARIANT T1_Triangulate
+CHECK_DEADLOCK FALSE
+"""
+CFG_TRI_CANARY = """SPECIFICATION Spec
+INVARIANT Canary_WrongTriangulate
+CHECK_DEADLOCK FALSE
+"""
+
+
+def t1_triangulate(ctx, G, maxv, seeds="Named"):
+    """polytri's ear clipping as transcribed (AlgPolygon.tla) succeeds and tiles, for every relabelling: on the named polygons
+    and on the exhaustive family; the wrong variant ('continue from the current corner') must be refuted (non-vacuity)."""
+    from .common import MachineryError
+    consts = {"G": G, "MaxV": maxv, "Relabel": "TRUE", "EmitOn": "FALSE", "WithBalls": "FALSE", "WithRadial": "FALSE",
+              "WithFF": "FALSE", "Seeds": "{}"}
+    runs = [("MC_Polygon2", _named_cfg(CFG_TRI, seeds, 8, True, False), None, f"named polygons ({seeds})"),
+            ("Polygon2", CFG_TRI, consts, f"every simple lattice polygon G={G} MaxV={maxv}")]
+    for mod, cfg, c, label in runs:
+        res = tlc.run(mod, cfg, constants=c, timeout=1500)
+        ctx.tlc(res, f"T1_Triangulate (ear clipping as coded terminates and tiles, every relabelling): {label}")
+        if res.violated:
+            ctx.violation({"cls": "spec", "obs": res.violated, "tags": ["T1"],
+                           "msg": f"design-level counter-example: {res.violated} fails ({label})"}, {"tlc_tail": res.stdout[-3000:]})
+    res = tlc.run("MC_Polygon2", _named_cfg(CFG_TRI_CANARY, "Named", 8, True, False), timeout=1500)
+    ctx.tlc(res, "canary: the wrong loop variant (no rescan after a clip) must be refuted on the named polygons")
+    if res.violated != "Canary_WrongTriangulate":
+        raise MachineryError("T1_Triangulate is vacuous: the wrong variant of the ear-clipping loop was not refuted")
+
+
+def emit_named(ctx, seeds="Named", G=8, relabel=True, balls=False, radial=False, ff=False):
+    res = tlc.run("MC_Polygon2", _named_cfg(CFG_EMIT, seeds, G, relabel, True, balls, radial, ff), timeout=1500)
+    ctx.tlc(res, f"MC_Polygon2 emission seeds={seeds} relabel={relabel}")
+    seen = {}
+    for r in res.records:
+        seen.setdefault(json.dumps(r["v"]), r)
+    return list(seen.values())
+
+
 def t1(ctx, G, maxv):
     res = tlc.run("Polygon2", CFG_T1,
                   constants={"G": G, "MaxV": maxv, "Relabel": "FALSE", "EmitOn": "FALSE", "WithBalls": "FALSE", "WithRadial": "FALSE", "WithFF": "FALSE", "Seeds": "{}"}, timeout=1500)
